@@ -589,7 +589,7 @@ pub fn strategy() -> BoxedStrategy<Case> {
         (
             spec,
             // a quarter of the cases on other time scales (spans 1e-6..1e4): |y'|/|y| from 1e-4 to 1e7
-            prop_oneof![3 => span_mid().boxed(), 1 => span_wide(-6.0, 4.0).boxed()],
+            prop_oneof![15 => span_mid().boxed(), 5 => span_wide(-6.0, 4.0).boxed(), 1 => span_tiny().boxed()],
             meth.clone(),
             fr(3.0, 7.0),
             proptest::option::weighted(0.3, proptest::collection::vec(fr(-1.5, 0.0), 8..=8)),
